@@ -26,5 +26,15 @@ for l in open(sys.argv[1]):
             print("* %s — %s" % (m["name"], m["where"]))
         print("\nobserve at: " + "; ".join(a.get("observe_at", [])))
 EOF
+python3 - "$root/seeded" "$id" > $d/ALREADY_TRIED.md <<'EOF'
+import json, sys, os, glob
+print("# Changes already written for this property by earlier engineers (titles only) — yours must be different in mechanism and site\n")
+for d in sorted(glob.glob(os.path.join(sys.argv[1], sys.argv[2] + "-*"))):
+    try:
+        m = json.load(open(os.path.join(d, "meta.json")))
+        print("* %s — %s" % (str(m.get("title", os.path.basename(d)))[:200], str(m.get("what_it_needs_to_manifest", m.get("needs", "")))[:200]))
+    except Exception:
+        pass
+EOF
 sed "s#/tmp/mut/<ID>#$d#g" $root/tools/mut/MUTATOR_BRIEF.md > $d/BRIEF.md
 echo $d
